@@ -252,15 +252,38 @@ func RouterName(i int) string { return fmt.Sprintf("%s/r%d", Network, i) }
 // NewSim creates n routers (real dv.Router around a harness engine), starts their management
 // threads and adds each router to its own RIB (what Router.Start does).
 func NewSim(n int) *Sim {
+	s, err := NewSimCfg(n, 0, 0)
+	if err != nil {
+		panic("harness: NewRouter: " + err.Error())
+	}
+	return s
+}
+
+// ParseConfig runs the REAL Config.Parse on a configuration with the given intervals (milliseconds).
+func ParseConfig(advMs, deadMs uint64) error {
+	cfg := config.DefaultConfig()
+	cfg.Network = Network
+	cfg.Router = RouterName(0)
+	cfg.AdvertisementSyncInterval_ms, cfg.RouterDeadInterval_ms = advMs, deadMs
+	return cfg.Parse()
+}
+
+// NewSimCfg: like NewSim with the given advertise / dead intervals in milliseconds (0, 0 = defaults);
+// the error is the one of the real Config.Parse (called by NewRouter).
+func NewSimCfg(n int, advMs, deadMs uint64) (*Sim, error) {
 	s := &Sim{byHash: map[uint64]int{}}
 	for i := 0; i < n; i++ {
 		cfg := config.DefaultConfig()
 		cfg.Network = Network
 		cfg.Router = RouterName(i)
+		if advMs != 0 || deadMs != 0 {
+			cfg.AdvertisementSyncInterval_ms, cfg.RouterDeadInterval_ms = advMs, deadMs
+		}
 		eng := &Engine{}
 		r, err := dv.NewRouter(cfg, eng)
 		if err != nil {
-			panic("harness: NewRouter: " + err.Error())
+			s.Close()
+			return nil, err
 		}
 		nd := &Node{Idx: i, Name: cfg.RouterName(), Hash: cfg.RouterName().Hash(), Cfg: cfg, Eng: eng, R: r}
 		s.Nodes = append(s.Nodes, nd)
@@ -275,7 +298,7 @@ func NewSim(n int) *Sim {
 	for _, nd := range s.Nodes {
 		nd.Eng.TakeCmds()
 	}
-	return s
+	return s, nil
 }
 
 // Close stops the management threads (every goroutine of the bubble must exit).
@@ -509,9 +532,14 @@ func (s *Sim) Heartbeat(u int, ns *table.NeighborState) {
 // advertSyncOnInterest), nothing is heard over the links that are down, then the deadcheck ticker
 // fires at every router (real checkDeadNeighbors).
 func (s *Sim) Tick(up func(u, w int) bool) {
-	half := s.Nodes[0].Cfg.RouterDeadInterval()/2 + 500*time.Millisecond
-	for round := 0; round < 2; round++ {
-		time.Sleep(half)
+	adv, dead := s.Nodes[0].Cfg.AdvertisementSyncInterval(), s.Nodes[0].Cfg.RouterDeadInterval()
+	t0 := time.Now()
+	until := func(t time.Time) {
+		if d := time.Until(t); d > 0 {
+			time.Sleep(d)
+		}
+	}
+	beat := func() {
 		for u, nu := range s.Nodes {
 			for _, ns := range nu.R.VerifNeighbors().GetAll() {
 				if w := s.IdxOfName(ns.Name); w >= 0 && up(u, w) {
@@ -520,10 +548,24 @@ func (s *Sim) Tick(up func(u, w int) bool) {
 			}
 		}
 	}
-	for _, nu := range s.Nodes {
-		nu.R.VerifCheckDeadNeighbors()
+	// the neighbours send a heartbeat every advertise interval (t0, t0+adv, ...), the deadcheck ticker fires
+	// every dead interval (t0+dead, t0+2*dead); only the heartbeat rounds that are the last before a sweep
+	// are played
+	beat()
+	last := time.Duration(0)
+	for j := 1; j <= 2; j++ {
+		sweep := time.Duration(j) * dead
+		if h := (sweep / adv) * adv; h > last {
+			until(t0.Add(h))
+			beat()
+			last = h
+		}
+		until(t0.Add(sweep))
+		for _, nu := range s.Nodes {
+			nu.R.VerifCheckDeadNeighbors()
+		}
+		s.Settle()
 	}
-	s.Settle()
 }
 
 // Restart: router i crashes and comes back — a fresh Router from the REAL NewRouter (boot sequence
